@@ -42,13 +42,12 @@ class CodonTriplets(Case):
     name = "Codon[all 4096 IUPAC triplets]"
     props = ("C15",)
     func = "gene.codon.Codon.translate"
-    summaries = ("gene.codon.Codon.__new__",)
-    call = ("(Codon(c).translate(), Codon(c).translate(strict=False), Codon(c).is_stop_codon, "
-            "Codon(c).is_strict_codon, Codon(c).is_canonical_start_codon, "
-            "Codon(c).synonymous_codons(include_self=True), Codon(c).synonymous_codons(), "
-            "[Codon(c).is_start_codon_in_specific_translation_table(t) for t in "
+    call = ("(lambda k: (k.translate(), k.translate(strict=False), k.is_stop_codon, "
+            "k.is_strict_codon, k.is_canonical_start_codon, "
+            "k.synonymous_codons(include_self=True), k.synonymous_codons(), "
+            "[k.is_start_codon_in_specific_translation_table(t) for t in "
             "(TranslationTable.DEFAULT, TranslationTable.STANDARD, TranslationTable.PROKARYOTE)], "
-            "Codon(c).is_start_codon_in_specific_translation_table())")
+            "k.is_start_codon_in_specific_translation_table()))(Codon(c))")
     ensures = {
         "strict-codon-standard-code": lambda i, r: r[0] == STD.get(i.c, "X"),
         "strict-flag": lambda i, r: r[3] == (i.c in STD),
@@ -83,7 +82,6 @@ class CodonConstructor(Case):
     name = "Codon.__init__[lengths 0..4 over a hostile alphabet]"
     props = ("C15", "C19")
     func = "gene.codon.Codon.__init__"
-    summaries = ("gene.codon.Codon.__new__",)
     call = "str(Codon(c))"
     raises = {"ValueError": lambda i: len(i.c) != 3 or any(ch.upper() not in LETTERS16 for ch in i.c)}
     ensures = {"upper": lambda i, r: r == i.c.upper()}
@@ -95,6 +93,31 @@ class CodonConstructor(Case):
         for n in range(0, 5):
             for t in itertools.product("AaUn-X", repeat=n):
                 yield {"c": "".join(t)}
+
+
+class CodonHeldReference(Case):
+    """A Codon obtained earlier keeps answering correctly after codons with other spellings (lower case, RNA 'U') are
+    constructed: the singleton table is keyed by the exact upper-cased spelling."""
+    name = "Codon singletons[held reference survives construction of other spellings]"
+    props = ("C15", "C10")
+    func = "gene.codon.Codon.__new__"
+    call = ("(lambda held: (Codon(other), held.translate(), str(held), held.is_stop_codon, held.is_strict_codon, "
+            "held is Codon(c)))(Codon(c))")
+    ensures = {
+        "held-codon-unchanged": lambda i, r: And(r[1] == STD.get(i.c, "X"), r[2] == i.c, r[3] == (STD.get(i.c) == "*"),
+                                                 r[4] == (i.c in STD), r[5] is True),
+    }
+
+    def inputs(self, S):
+        return NS(c=S.const("c"), other=S.const("other"), Codon=S.cls("gene.codon.Codon"))
+
+    def ground(self):
+        for c in CODONS64:
+            yield {"c": c, "other": c.replace("T", "U")}
+            yield {"c": c, "other": c.lower()}
+
+    def observe(self, r):
+        return [r[1], r[2], r[3], r[4], r[5]]
 
 
 class GencodeTables(Case):
@@ -323,7 +346,7 @@ class BiotypeSynonyms(Case):
         yield {}
 
 
-CASES = [CodonTriplets(), CodonConstructor(), GencodeTables(), ComplementTables(), FrameShift(), FramePhase(),
+CASES = [CodonTriplets(), CodonConstructor(), CodonHeldReference(), GencodeTables(), ComplementTables(), FrameShift(), FramePhase(),
          FrameFromInt(), StrandAlgebra(), StrandFromSymbol(), StrandFromInt(), BiotypeSynonyms()]
 
 CANARIES = [
